@@ -1,0 +1,71 @@
+//go:build verif
+// +build verif
+
+package onchain
+
+import (
+	"context"
+
+	"github.com/DOSNetwork/core/onchain/commitreveal"
+	"github.com/DOSNetwork/core/onchain/dosproxy"
+	"github.com/ethereum/go-ethereum/core/types"
+)
+
+// Verification hooks (build tag verif): thin exports, no logic of their own.
+
+// VerifFirstEvent is firstEvent (first-occurrence filter behind SubscribeEvent).
+func VerifFirstEvent(ctx context.Context, source chan interface{}) chan interface{} {
+	return firstEvent(ctx, source)
+}
+
+// VerifMerge is merge (fan-in of the per-endpoint watcher channels).
+func VerifMerge(ctx context.Context, cs ...chan interface{}) chan interface{} {
+	return merge(ctx, cs...)
+}
+
+// VerifLog builds the *LogCommon every table entry builds around a translated payload.
+func VerifLog(raw types.Log, payload interface{}) interface{} {
+	return &LogCommon{
+		Tx:      raw.TxHash.Hex(),
+		BlockN:  raw.BlockNumber,
+		Removed: raw.Removed,
+		Raw:     raw,
+		log:     payload,
+	}
+}
+
+// VerifProxyEntry / VerifCrEntry give access to the subscription tables (nil when the index has no entry).
+func VerifProxyEntry(i int) func(ctx context.Context, proxy *dosproxy.DosproxySession) (chan interface{}, chan error) {
+	if i < 0 || i >= len(proxyTable) {
+		return nil
+	}
+	return proxyTable[i]
+}
+func VerifCrEntry(i int) func(ctx context.Context, cr *commitreveal.CommitrevealSession) (chan interface{}, chan error) {
+	if i < 0 || i >= len(crTable) {
+		return nil
+	}
+	return crTable[i]
+}
+func VerifTableLens() (proxy, cr int) { return len(proxyTable), len(crTable) }
+
+// VerifOnchainError builds the error value the request closures of eth_set.go return.
+func VerifOnchainError(idx int, err error) error { return &OnchainError{err: err, Idx: idx} }
+
+// VerifHandleReq runs handleReq once on an adaptor that has exactly the given endpoint
+// contexts / cancel functions and returns what waitForReply would read from the reply
+// channel (replied == false: handleReq returned without replying because opCtx was done).
+func VerifHandleReq(opCtx context.Context, ctxs []context.Context, cancels []context.CancelFunc,
+	f func(ctx context.Context) (*types.Transaction, error)) (idx int, tx *types.Transaction, err error, replied bool) {
+	e := &ethAdaptor{ctxes: ctxs, cancels: cancels}
+	req := &request{opCtx: opCtx, f: f, reply: make(chan *response)}
+	e.handleReq(req)
+	select {
+	case r, ok := <-req.reply:
+		if ok {
+			return r.idx, r.tx, r.err, true
+		}
+	case <-opCtx.Done():
+	}
+	return
+}
